@@ -62,6 +62,7 @@ class Target:
         return self.A + np.diag(3 * self.c * q**2) + self.kappa / np.cosh(s) ** 2 * np.outer(self.w, self.w)
 
     def mtp(self, q):
+        q = np.array(q, dtype=float, copy=True)  # a well-behaved user closure does not keep a reference to its argument
         s = self.w @ q
         k3 = -2 * self.kappa * np.tanh(s) / np.cosh(s) ** 2
 
